@@ -145,6 +145,7 @@ def obligations(ctx, pid):
         for cname, fields in rm.class_fields.items():
             declared[rm.target + "." + cname] = set(fields)
     nca = 0
+    seen_ca = set()
     for cq in sorted(classes):
         ci = P.classes[cq]
         for c in P.mro(ci) + P.subclasses(ci, strict=True):
@@ -152,7 +153,10 @@ def obligations(ctx, pid):
                 nca += 1
                 if name in declared.get(c.qualname, set()) or name.startswith("__"):
                     continue
-                if name in read_names:
+                if T.named_class_constant(P, c, name) is not None:
+                    continue            # a named constant: every read is replaced by its literal in the terms that are compared
+                if name in read_names and (c.qualname, name) not in seen_ca:
+                    seen_ca.add((c.qualname, name))
                     obs.append(Ob(f"E0.class-attr:{c.qualname}.{name}", "E0.class-attr", f"{c.module.relpath}:{c.node.lineno} {c.qualname}", "violation",
                                   f"class-level attribute {c.qualname}.{name} is not part of the specification but `{name}` is read "
                                   f"(attribute access / hasattr / getattr) by functions specified for this property: every instance now has it",
